@@ -280,6 +280,14 @@ class CFGBuilder(AstVisitor[BB | None]):
             parse_function_with_docstring,
         )
 
+        # Decorators of nested functions would be dropped without ever being evaluated
+        if node.decorator_list:
+            raise GuppyError(
+                UnsupportedError(
+                    node.decorator_list[0], "Decorators on nested functions"
+                )
+            )
+
         node, docstring = parse_function_with_docstring(node)
 
         func_ty = check_signature(node, self.globals)
